@@ -9,7 +9,7 @@ CONSTANTS
   Splits = FALSE
   S0Kinds = {"given", "init"}
   HandOvers = {}
-  OutKinds = {"zero", "used"}
+  OutKinds = {"zero"}
   Emit = TRUE
-INVARIANTS Causal PureLabels OutputContentIrrelevant SegmentLabels
+INVARIANTS Causal PureLabels SegmentLabels
 CHECK_DEADLOCK FALSE
